@@ -24,6 +24,7 @@ import (
 	"istio.io/istio/pilot/pkg/features"
 	"istio.io/istio/pilot/pkg/model"
 	"istio.io/istio/pkg/config"
+	kubeUtil "istio.io/istio/pkg/kube"
 	"istio.io/istio/pkg/kube/kclient"
 	"istio.io/istio/pkg/maps"
 	"istio.io/istio/pkg/slices"
@@ -146,8 +147,9 @@ func (pc *PodCache) labelFilter(old, cur *v1.Pod) bool {
 // onEvent updates the IP-based index (pc.podsByIP).
 func (pc *PodCache) onEvent(old, pod *v1.Pod, ev model.Event) error {
 	if ev == model.EventUpdate && old != nil &&
-		(old.Spec.NodeName != pod.Spec.NodeName || old.Spec.ServiceAccountName != pod.Spec.ServiceAccountName) {
-		// An endpoint takes its node, locality and identity from the pod as it was when its EndpointSlice was
+		(old.Spec.NodeName != pod.Spec.NodeName || old.Spec.ServiceAccountName != pod.Spec.ServiceAccountName ||
+			workloadNameOf(old) != workloadNameOf(pod)) {
+		// An endpoint takes its node, locality, identity and workload name from the pod as it was when its EndpointSlice was
 		// handled. If that was before the pod was bound to a node (the pod informer lagging behind the slice
 		// informer), nothing else would rebuild the endpoint: the pod was found, so the slice is not waiting for it.
 		pc.queueEndpointEventsForPod(pod)
@@ -323,6 +325,12 @@ func (pc *PodCache) queueWaitingEndpointEvents(ip string) {
 		}
 		endpointsPendingPodUpdate.Record(float64(len(pc.needResync)))
 	}
+}
+
+// workloadNameOf is the workload name an endpoint of the pod gets (from the controller owner reference, or the pod name).
+func workloadNameOf(pod *v1.Pod) string {
+	dm, _ := kubeUtil.GetWorkloadMetaFromPod(pod)
+	return dm.Name
 }
 
 // queueEndpointEventsForPod queues an endpoint event for every EndpointSlice of the pod's namespace that has an
